@@ -38,6 +38,10 @@ def m_source(base: str, order: int) -> str:
     decls = list(M_DECLS)
     head = ["from __future__ import annotations", "import argparse", "from decimal import Decimal", "from enum import Enum", "from typing import Generic, TypeVar", "", 'T = TypeVar("T")']
     decls.append("def money(d: Decimal) -> Decimal:\n    ...\n")      # a class of another library; an unrelated module may define a class of that name
+    # named like a module of the standard library that an unrelated package file may import
+    decls.append("def logging(level: int) -> int:\n    ...\n")
+    # a type that only the docstring names; an unrelated module may define a class of that name
+    decls.append('def documented(t, n: int) -> int:\n    """Use a widget.\n\n    Parameters\n    ----------\n    t : Widget\n        The widget.\n    n : int\n        A number.\n    """\n    ...\n')
     if base == "references-sibling":
         head.append(f"from {PKG}.sibmod import Sibling")
         decls.append("def uses_sibling(s: Sibling) -> Sibling:\n    ...\n")
@@ -74,15 +78,25 @@ def package(base: str, u: int, u2: int, order: int, ri: int = 0):
         files["_mixin.py"] = f"from {PKG}.tables import Table\n\n\nclass _Summarizable:\n    def summarize(self, t: Table) -> Table:\n        ...\n"
     sibling = (f"from {PKG}._mixin import _Summarizable\n\n\nclass OtherReport(_Summarizable):\n    def render(self) -> int:\n        ...\n"
                if base == "private-mixin" else U_PLAIN)
-    content = {1: U_PLAIN, 2: U_CHANGED, 3: U_SAME, 4: sibling}
+    content = {1: U_PLAIN, 2: U_CHANGED, 3: U_SAME, 4: sibling, 5: U_PLAIN}
     if u:
         files["umod.py"] = content[u]
         files["amod.py"] = content[u].replace("OtherReport", "OtherReportA") if u == 4 else TRAIL.format(body=content[u].replace("Unrelated", "UnrelatedA").replace("unrelated_fun", "unrelated_fun_a"), name="ARec")
     if u == 3:      # ... in a module whose path ends like the other library's ("decimal")
         files["bigdecimal.py"] = "class Decimal:\n    pass\n"
         files["xargparse.py"] = "class _ActionsContainer:\n    def injected(self) -> int:\n        ...\n"
+        # ... and in a package with a module called like the other library's; its package file imports a standard-library module called like M's function
+        files["utilpk/__init__.py"] = "import logging\n"
+        files["utilpk/decimal.py"] = "class Decimal:\n    pass\n"
+    if u == 5:      # an unrelated module defines a class called like the type that M's docstring names
+        files["utilpk/__init__.py"] = ""
+        files["utilpk/gadgets.py"] = "class Widget:\n    pass\n"
     if u2:
         files["renamed_umod.py"] = content[u2]
+    if ri == 2:      # the root __init__ re-exports an unrelated module whose name is a string prefix of M's (mmo / mmod)
+        files[mrel.replace("mmod.py", "mmo.py")] = U_PLAIN.replace("Unrelated", "UnrelatedP").replace("unrelated_fun", "unrelated_fun_p")
+        files["__init__.py"] += "from .inner import mmo\n" if sub else "from . import mmo\n"
+        return files
     if ri:      # the root __init__ re-exports the unrelated module's class that is named like the one M uses
         files["__init__.py"] += "from .umod import Sibling\n"
     return files
@@ -93,7 +107,7 @@ START_U = {"rename-unrelated": 1, "change-unrelated": 1, "remove-unrelated": 1}
 
 def apply(kind, u):
     return {"add-plain": (1, 0, 1), "add-same-names": (3, 0, 1), "rename-unrelated": (0, u, 1), "change-unrelated": (2, 0, 1),
-            "remove-unrelated": (0, 0, 1), "permute-own": (u, 0, 2), "reexport-unrelated-same-name": (3, 0, 1, 1), "add-sibling-subclass": (4, 0, 1)}[kind]
+            "remove-unrelated": (0, 0, 1), "permute-own": (u, 0, 2), "reexport-unrelated-same-name": (3, 0, 1, 1), "add-sibling-subclass": (4, 0, 1), "reexport-unrelated-prefix-module": (0, 0, 1, 2), "add-class-named-in-docstring": (5, 0, 1)}[kind]
 
 
 def facts(r):
@@ -106,7 +120,7 @@ def facts(r):
         mod = f.pymodule or f.package
         if not (mod.endswith(".mmod") or mod == PKG or mod.endswith(".inner")):
             continue
-        if rel.endswith("/Sibling.sdsstub"):      # the unrelated module's re-exported class: not a stub of M
+        if rel.endswith("/Sibling.sdsstub") or rel.endswith("/mmo.sdsstub"):      # the unrelated module's re-exported class: not a stub of M
             continue
 
         def decl(d):
